@@ -26,6 +26,7 @@ class TelnetTransport(Transport):
         self._eof = False
         self._raw_buf = b""
         self._cooked_buf = b""
+        self._control_buf = b""
 
         self._control_char_sent_counter = 0
         self._control_char_sent_limit = 10
@@ -146,19 +147,25 @@ class TelnetTransport(Transport):
         if not self.socket:
             raise ScrapliConnectionNotOpened
 
-        index = self._raw_buf.find(IAC)
-        if index == -1:
-            self._cooked_buf = self._raw_buf
-            self._raw_buf = b""
-            return
+        if not self._control_buf:
+            index = self._raw_buf.find(IAC)
+            if index == -1:
+                self._cooked_buf = self._raw_buf
+                self._raw_buf = b""
+                return
 
-        self._cooked_buf = self._raw_buf[:index]
-        self._raw_buf = self._raw_buf[index:]
-        control_buf = b""
+            self._cooked_buf = self._raw_buf[:index]
+            self._raw_buf = self._raw_buf[index:]
+
+        # control_buf is the buffer for the control sequence we are currently responding to; it is
+        # kept on the transport between calls as a sequence may be split across socket reads
+        control_buf = self._control_buf
 
         while self._raw_buf:
             c, self._raw_buf = self._raw_buf[:1], self._raw_buf[1:]
             control_buf = self._handle_control_chars_response(control_buf=control_buf, c=c)
+
+        self._control_buf = control_buf
 
     def open(self) -> None:
         self._pre_open_closing_log(closing=False)
